@@ -130,6 +130,14 @@ def hoist_basic(d):
     if nunion != 3:
         raise RuntimeError('hoist_basic: expected 3 top-level unions in cc.h, found %d' % nunion)
     open(h, 'w').write(s)
+    # same for the cursor of the initializer parser (init.c: struct object { ... union { struct member *mem; size_t idx; } u; }): arrays use
+    # idx, structs use mem, never both for one object
+    ic = os.path.join(d, 'init.c')
+    if os.path.exists(ic):
+        t = open(ic).read()
+        t2, k = re.subn(r'(?m)^\tunion \{\n(\t\tstruct member \*mem;\n\t\t[^\n]* idx;\n\t\} u;)', r'\tstruct {  /* union in /repo */\n\1', t)
+        if k == 1:
+            open(ic, 'w').write(t2)
     for f in sorted(os.listdir(d)):
         if f.endswith('.c') or f.endswith('.h'):
             p = os.path.join(d, f)
